@@ -193,6 +193,8 @@ type member struct {
 func (m *member) Init(args ...any) error {
 	a := m.app
 	if int(a.fail.Load()) == m.idx {
+		// let the members started before go back to sleep: the roll-back then kills them synchronously
+		time.Sleep(2 * time.Millisecond)
 		return errInit
 	}
 	a.w.log(Event{K: 0, A: a.id, M: m.idx})
